@@ -93,6 +93,9 @@ func main() {
 		fmt.Printf("MACHINERY-ERROR: unknown tier %q\n", *tier)
 		os.Exit(2)
 	}
+	if cfg.name == "thorough" {
+		soakN = 300000
+	}
 	if *procs > 0 {
 		cfg.procs = *procs
 	}
